@@ -66,8 +66,12 @@ def inputs(ctx, h, which):
         ctx.harness(h, ["gen-mutants", "--in", corpus, "--per", per, "--seed", ctx.seed, "--maxlen", maxlen, "--out", mp])
         out.append(("mutants", mp))
     if "doc" in which:
-        models = [(3, 3, False, "doc-n3p3"), (2, 3, True, "doc-n2p3r")] if ctx.quick else \
-                 [(4, 2, False, "doc-n4p2"), (3, 3, True, "doc-n3p3r")]
+        if ctx.prop == "C09":
+            models = [(3, 3, False, "doc-n3p3"), (2, 3, True, "doc-n2p3r")] if ctx.quick else \
+                     [(4, 2, False, "doc-n4p2"), (3, 3, True, "doc-n3p3r")]
+        else:
+            models = [(3, 2, False, "doc-n3p2"), (2, 3, True, "doc-n2p3r")] if ctx.quick else \
+                     [(3, 3, True, "doc-n3p3r")]
         for (n, pth, rich, tag) in models:
             recs = gen_doc_cases(ctx, n, pth, rich, tag)
             p = ctx.path(tag + ".ndjson")
